@@ -115,6 +115,21 @@ func VerifC18_Create() {
 	sec.assertNoResponseLeak(r2, "list")
 	c18Do(srv, request.Pause, &request.PauseRequest{TaskID: taskID})
 	sec.assertNoLogLeak("get-list-pause")
+	// resume (the start may fail at some step), then the position query
+	switch vChoice("resumeFailure", 4) {
+	case 1:
+		w.connectFails = true
+	case 2:
+		w.chReaderFails = true
+	case 3:
+		w.f.faults = true
+	}
+	_, _, r4 := c18Do(srv, request.Resume, &request.ResumeRequest{TaskID: taskID})
+	w.connectFails, w.chReaderFails, w.f.faults = false, false, false
+	sec.assertNoLogLeak("resume")
+	sec.assertNoResponseLeak(r4, "resume")
+	_, _, r5 := c18Do(srv, request.GetPosition, &request.GetPositionRequest{TaskID: taskID})
+	sec.assertNoResponseLeak(r5, "position")
 	// restart: a fresh server reloads the persisted task; the start may fail again
 	w2cdc := sNewCDC(w.f)
 	switch vChoice("reloadFailure", 3) {
@@ -125,8 +140,12 @@ func VerifC18_Create() {
 	}
 	w2cdc.ReloadTask()
 	sec.assertNoLogLeak("reload")
-	_, _, r3 := c18Do(&CDCServer{api: w2cdc, serverConfig: w2cdc.config}, request.Get, &request.GetRequest{TaskID: taskID})
+	srv2 := &CDCServer{api: w2cdc, serverConfig: w2cdc.config}
+	_, _, r3 := c18Do(srv2, request.Get, &request.GetRequest{TaskID: taskID})
 	sec.assertNoResponseLeak(r3, "get-after-reload")
+	_, _, r6 := c18Do(srv2, request.Delete, &request.DeleteRequest{TaskID: taskID})
+	sec.assertNoResponseLeak(r6, "delete")
+	sec.assertNoLogLeak("delete")
 	vReach("end")
 }
 const c18T1 = "http://t1:19530"
